@@ -680,10 +680,11 @@ var verifCandKinds = []string{"root-entry-nlink", "toc-digest-span-zstd", "repea
 	"dir-after-child-nlink", "chunk-digest-fallback"}
 
 // outside the property's domain (a path named twice is not a valid layer, GetOffset of an entry
-// without data is not container-visible): differences are recorded as evidence notes only
-var verifNoteKinds = []string{"dup-name", "getoffset-no-data"}
+// without data is not container-visible, a hardlink to a LATER entry and a chunk before its file are
+// not valid TOCs): differences are recorded as evidence notes only
+var verifNoteKinds = []string{"dup-name", "getoffset-no-data", "hardlink-forward", "chunk-first"}
 
-var verifNonconfKinds = []string{"hardlink-missing", "hardlink-to-dir", "hardlink-forward", "chunk-first",
+var verifNonconfKinds = []string{"hardlink-missing", "hardlink-to-dir",
 	"file-under-file", "unknown-type", "chunks-unsorted", "two-bad-hardlinks", "hardlink-source-has-children"}
 
 func (g *verifGen) insertFront(e verifEnt) {
@@ -1433,6 +1434,14 @@ func verifCandidateScenarios() []*verifLayer {
 		vOne(vE("n/", "dir", vMode(0700), vOwner(3, 3), vX("user.a", "1"))),
 		vFile("n", "now-a-file", nil),
 	), nil, verifStd, "dup-name"))
+	// a hardlink to a later entry, a chunk before any file (not valid TOCs: notes)
+	ls = append(ls, verifScenario("note-hardlink-forward", "note", "gzip", vCat(vOne(vE("l", "hardlink", vLink("f"))), vFile("f", "x", nil)), nil, verifStd, "hardlink-forward"))
+	ls = append(ls, verifScenario("note-chunk-first", "note", "gzip", vCat(vOne(verifEnt{Name: "c", Type: "chunk", ChunkOffset: 0, ChunkSize: 1}), vFile("f", "x", nil)), nil, verifStd, "chunk-first"))
+	{
+		ents := vFile("f", "0123456789", []int{5})
+		ents[0], ents[1] = ents[1], ents[0] // chunk before its reg
+		ls = append(ls, verifScenario("note-chunk-before-reg", "note", "gzip", ents, nil, verifStd, "chunk-first"))
+	}
 	// offsets on entries that carry no data
 	{
 		ents := vCat(vFile("e", "", nil), vOne(vE("d/", "dir")), vFile("z", "zz", nil))
@@ -1475,14 +1484,12 @@ func verifNonConformingScenarios() []*verifLayer {
 		return l
 	}
 	var ls []*verifLayer
-	ls = append(ls, mk("hardlink-forward", vCat(vOne(vE("l", "hardlink", vLink("f"))), vFile("f", "x", nil))))
 	ls = append(ls, mk("hardlink-missing", vCat(vFile("f", "x", nil), vOne(vE("l", "hardlink", vLink("nope"))))))
 	ls = append(ls, mk("hardlink-to-dir", vCat(vOne(vE("d/", "dir")), vOne(vE("l", "hardlink", vLink("d"))))))
 	ls = append(ls, mk("hardlink-to-implicit-dir", vCat(vFile("d/f", "x", nil), vOne(vE("l", "hardlink", vLink("d"))))))
 	ls = append(ls, mk("hardlink-to-root", vCat(vFile("f", "x", nil), vOne(vE("l", "hardlink", vLink("/"))))))
 	ls = append(ls, mk("hardlink-self", vCat(vOne(vE("l", "hardlink", vLink("l"))))))
 	ls = append(ls, mk("hardlink-cycle", vCat(vOne(vE("a", "hardlink", vLink("b"))), vOne(vE("b", "hardlink", vLink("a"))))))
-	ls = append(ls, mk("chunk-first", vCat(vOne(verifEnt{Name: "c", Type: "chunk", ChunkOffset: 0, ChunkSize: 1}), vFile("f", "x", nil))))
 	ls = append(ls, mk("chunk-after-dir", vCat(vOne(vE("d/", "dir")), vOne(verifEnt{Name: "d", Type: "chunk", ChunkOffset: 1, ChunkSize: 1}))))
 	ls = append(ls, mk("file-under-file", vCat(vFile("a", "x", nil), vFile("a/b", "y", nil))))
 	ls = append(ls, mk("hardlink-source-has-children", vCat(vFile("a", "x", nil), vFile("a/b", "y", nil), vOne(vE("a/b/c", "hardlink", vLink("a"))))))
@@ -1492,11 +1499,6 @@ func verifNonConformingScenarios() []*verifLayer {
 	ls = append(ls, mk("root-is-symlink", vCat(vOne(vE("/", "symlink", vLink("x"))), vFile("f", "y", nil))))
 	ls = append(ls, mk("root-is-hardlink", vCat(vFile("f", "y", nil), vOne(vE("/", "hardlink", vLink("f"))))))
 	ls = append(ls, mk("only-root", vOne(vE("./", "dir"))))
-	{
-		ents := vFile("f", "0123456789", []int{5})
-		ents[0], ents[1] = ents[1], ents[0] // chunk before its reg
-		ls = append(ls, mk("chunk-before-reg", ents))
-	}
 	{
 		ents := vFile("f", "0123456789", []int{3, 6})
 		ents[1], ents[2] = ents[2], ents[1] // unsorted chunks
